@@ -19,7 +19,9 @@
 //	          clients that pipeline and then disappear while their replies are
 //	          staged (RST, close, half-close, never reading) or with whole
 //	          queries unconsumed, each followed at once by other clients'
-//	          connections on the same small engine (recycle.go)
+//	          connections on the same small engine (recycle.go); then the
+//	          drain-buffer sweep: bursts of cache hits whose staged size lands
+//	          on every offset around the stream's drain-buffer size (sweep.go)
 //	asan      (thorough) the rounds phase in the -asan build
 package main
 
